@@ -266,6 +266,13 @@ def scripted_histories(rng):
                   ("enable_eom", "ryd_glob", 5.0, 0.0, -20.0, True), ("eom_pulse", "ryd_glob", 100, 1.0, "min-delay", True), ("delay", 40, "ryd_glob", False),
                   ("modify_eom", "ryd_glob", 8.0, 4.0, 15.0, True), ("eom_pulse", "ryd_glob", 52, 0.0, "no-delay", True), ("disable_eom", "ryd_glob", True),
                   ("add", ("const", 100, 1.0, 0.0, 1.0, 0), "ryd_glob", "min-delay")]
+    # a local channel retargeted at t = 0 (zero-length target slot) and put into EOM mode while still empty; then sampled
+    c = eom_cfg()
+    c["channels"]["ryd_loc"] = dict(c["channels"]["ryd_glob"], local=True, min_retarget_interval=0, fixed_retarget_t=0, max_targets=1)
+    yield c, [("declare", "ryd_glob", "ryd_glob", None), ("declare", "ryd_loc", "ryd_loc", "q0"), ("add", ("const", 100, 1.0, 0.0, 0, 0), "ryd_glob", "min-delay"),
+              ("target", ["q1"], "ryd_loc"), ("enable_eom", "ryd_loc", 5.0, 0.0, -20.0, False)]
+    yield c, [("declare", "ryd_glob", "ryd_glob", None), ("declare", "ryd_loc", "ryd_loc", "q0"), ("add", ("const", 100, 1.0, 0.0, 0, 0), "ryd_glob", "min-delay"),
+              ("target", ["q1"], "ryd_loc"), ("enable_eom", "ryd_loc", 5.0, 0.0, -20.0, False), ("eom_pulse", "ryd_loc", 100, 0.0, "no-delay", False)]
     # EOM mode enabled on a local channel right after a retarget (the start buffer is still due), with default and custom buffer time
     for buf in (None, 240):
         c = eom_cfg(buf)
